@@ -529,7 +529,7 @@ pub fn run(args: &Args) -> Option<i32> {
     mon.assume("failed instructions change nothing (transaction atomicity of the runtime), so accounts are re-read only after successes");
     mon.assume("requests the property does not forbid but the instruction docs reject (malformed accounts, receiver already has a code, …) are counted, not judged");
     let quiet = hostsvm::QuietStdout::new();
-    let shards = args.scale(512, 4096);
+    let shards = args.scale(512, 2048);
     let cases = args.scale(12, 40);
     let seed = args.seed;
     run_shards(&mut mon, args.threads, shards, |shard, m| {
